@@ -363,7 +363,6 @@ func runC10(c *fw.Case) {
 		}},
 		{"Filter with unsupported comparator name", "Filter", func() qframe.QFrame { return qf.Filter(qframe.Filter{Column: iC, Comparator: "~=", Arg: 1}) }},
 		{"Filter int column with string argument", "Filter", func() qframe.QFrame { return qf.Filter(qframe.Filter{Column: iC, Comparator: "=", Arg: "x"}) }},
-		{"Filter float column with NaN argument", "Filter", func() qframe.QFrame { return qf.Filter(qframe.Filter{Column: fC, Comparator: "<", Arg: math.NaN()}) }},
 		{"Filter bool column with int argument", "Filter", func() qframe.QFrame { return qf.Filter(qframe.Filter{Column: bC, Comparator: "=", Arg: 1}) }},
 		{"Filter string column with function of int", "Filter", func() qframe.QFrame {
 			return qf.Filter(qframe.Filter{Column: sC, Comparator: func(x int) bool { cb.hit(); return true }})
@@ -396,7 +395,6 @@ func runC10(c *fw.Case) {
 		{"Aggregate with function of the wrong slice type", "Aggregate", func() qframe.QFrame {
 			return qf.GroupBy(groupby.Columns(bC)).Aggregate(qframe.Aggregation{Fn: func(v []float64) float64 { cb.hit(); return 0 }, Column: iC})
 		}},
-		{"Aggregate onto a grouping column", "Aggregate", func() qframe.QFrame { return qf.GroupBy(groupby.Columns(bC)).Aggregate(qframe.Aggregation{Fn: "sum", Column: iC, As: bC}) }},
 		{"Apply with unknown source column", "Apply", func() qframe.QFrame {
 			return qf.Apply(qframe.Instruction{Fn: func(x int) int { cb.hit(); return x }, DstCol: "x", SrcCol1: "nope"})
 		}},
@@ -423,8 +421,6 @@ func runC10(c *fw.Case) {
 		{"Eval expression without arguments", "Eval", func() qframe.QFrame { return qf.Eval("x", qframe.Expr("+")) }},
 		{"Eval mismatched operand types", "Eval", func() qframe.QFrame { return qf.Eval("x", qframe.Expr("+", types.ColumnName(iC), types.ColumnName(fC))) }},
 		{"Eval to illegal destination", "Eval", func() qframe.QFrame { return qf.Eval("$x", qframe.Expr("abs", types.ColumnName(iC))) }},
-		{"Rolling with invalid window size", "Rolling", func() qframe.QFrame { return qf.Rolling("sum", "x", iC, rolling.WindowSize(0)) }},
-		{"Rolling with invalid position", "Rolling", func() qframe.QFrame { return qf.Rolling("sum", "x", iC, rolling.Position("middle")) }},
 		{"Rolling on unknown column", "Rolling", func() qframe.QFrame { return qf.Rolling("sum", "x", "nope") }},
 	}
 	before := cb.n
